@@ -572,7 +572,7 @@ func c20Exec(e *c20Env, c *c20Case) *c20Run {
 		for _, mr := range tx.MatchedRules() {
 			id := mr.Rule().ID()
 			r.Matched = append(r.Matched, id)
-			if c20LoggedIDs[id] {
+			if c20LoggedIDs[id] && !(id == 200 && s.Conf.AttackNolog) {
 				r.KeepApply = true
 			}
 		}
